@@ -70,7 +70,20 @@ CLAIM = {
             '(saving does not modify the object: theorem save_modifies_only_original_filename; no aliasing between '
             'saved and loaded objects, dict forms are snapshots) and R7 (file is a snapshot, shared parameters object, '
             'save/load chains, two loads independent) by oracle only - the functional model has no aliasing. '
-            'Tuples (known finding) and complex values (rejected with TypeError, checked) are not supported values.',
+            'Tuples (known finding) and complex values (rejected with TypeError, checked) are not supported values. '
+            'R8 (argument forms: Result constructor positional/keyword, Result.create, update(value=,total=), '
+            'add_new_result vs append_result, set_unpack_parameter forms, create() vs add(), save/load/from_json/'
+            'get_filename/replace_dict_values by keyword) oracle + generators only (the model has one form); '
+            'R9 (CHOICE indexes as int, every numpy integer width incl. intp and unsigned, bool, 0-d array, values '
+            'above 256; numpy-typed current_rep) by theorem for the index conversion (itemOf/choice_roundtrip_exact) + '
+            'correspondence; R10 (heterogeneous lists/sets of arrays, lists and scalars) instance of dec_enc, '
+            'enumerated in correspondence and oracles; R11 (queries, ==, repr, copies between saves) oracle only; '
+            'R12 (insertion order of parameters, marks, results, set elements) oracle + canonical comparison (the '
+            'model decoder looks fields up by key); R13 (children changed after unpacking, originals changed after '
+            'unpacking, copies, combine_simulation_results unions) by theorems params_roundtrip_after_mutation / '
+            'child_keeps_own_value with the mutators in the model (driver op paramsops) + correspondence + oracles; '
+            'R14 (257/258/300 parameters, results, choices, 2^16+1 elements and updates) instances of the theorems, '
+            'one case of each per run.',
 }
 
 RESERVED = ('_is_set', '_is_numpy_array')
@@ -520,8 +533,18 @@ def build_params(ps, skip_post_ops=False):
             p.add(n, build(v))
     else:
         p = P.create({n: build(v) for n, v in ps['params']})
-    for n in ps.get('unpack', []):
-        p.set_unpack_parameter(n)
+    for i, n in enumerate(ps.get('unpack', [])):
+        form = (ps.get('mark_form', 0) + i) % 3          # R8: default / positional / keyword
+        if form == 0:
+            p.set_unpack_parameter(n)
+        elif form == 1:
+            p.set_unpack_parameter(n, True)
+        else:
+            p.set_unpack_parameter(name=n, unpack_bool=True)
+    if ps.get('derive') == 'deepcopy':                   # R13: a copy is used instead of the object
+        p = copy.deepcopy(p)
+    elif ps.get('derive') == 'pickle':
+        p = pickle.loads(pickle.dumps(p, protocol=2))
     if ps.get('child') is not None:
         lst = p.get_unpacked_params_list()
         p = lst[ps['child'] % len(lst)]
@@ -533,6 +556,10 @@ def build_params(ps, skip_post_ops=False):
     if not skip_post_ops:
         for op in ps.get('post_ops', []):
             apply_post_op(p, op)
+    if ps.get('derive_child') == 'deepcopy':             # R13: a copy of the (changed) child, with its chain
+        p = copy.deepcopy(p)
+    elif ps.get('derive_child') == 'pickle':
+        p = pickle.loads(pickle.dumps(p, protocol=2))
     return p
 
 
@@ -582,33 +609,84 @@ def child_differs_from_parent(p):
     return False
 
 
-def build_result(rs):
-    """rs = {'name', 'type', 'acc', 'choice_num', 'history': [[vspec, tspec|None]..]}"""
+RESULT_FORMS = ['ctor-kw', 'ctor-pos', 'ctor-allkw', 'create', 'create-kw']
+
+
+def build_result(rs, form=None):
+    """rs = {'name', 'type', 'acc', 'choice_num', 'history': [[vspec, tspec|None]..], 'form': R8 argument form}
+    All forms are documented as equivalent: constructor arguments positionally / by
+    keyword, `Result.create` (= constructor + first update), `update` arguments by keyword."""
     R = _impl()[1]
-    if rs['type'] == 3:
+    form = form or rs.get('form') or 'ctor-kw'
+    hist = list(rs['history'])
+    kw = form.endswith('kw')
+    if form.startswith('create') and hist:
+        v, t = hist.pop(0)
+        if rs['type'] == 3:
+            r = (R.create(name=rs['name'], update_type=3, value=build(v), total=rs['choice_num'],
+                          accumulate_values=rs['acc']) if kw else
+                 R.create(rs['name'], 3, build(v), rs['choice_num'], rs['acc']))
+        elif t is None:
+            r = (R.create(name=rs['name'], update_type=rs['type'], value=build(v), accumulate_values=rs['acc']) if kw
+                 else R.create(rs['name'], rs['type'], build(v), 0, rs['acc']))
+        else:
+            r = (R.create(name=rs['name'], update_type=rs['type'], value=build(v), total=build(t),
+                          accumulate_values=rs['acc']) if kw else
+                 R.create(rs['name'], rs['type'], build(v), build(t), rs['acc']))
+    elif form == 'ctor-pos':
+        r = R(rs['name'], rs['type'], rs['acc'], rs['choice_num']) if rs['type'] == 3 else (
+            R(rs['name'], rs['type'], rs['acc']) if rs['acc'] else R(rs['name'], rs['type']))
+    elif form == 'ctor-allkw':
+        r = R(name=rs['name'], update_type_code=rs['type'], accumulate_values=rs['acc'], choice_num=rs['choice_num'])
+    elif rs['type'] == 3:
         r = R(rs['name'], 3, accumulate_values=rs['acc'], choice_num=rs['choice_num'])
     else:
         r = R(rs['name'], rs['type'], accumulate_values=rs['acc'])
-    for v, t in rs['history']:
+    for v, t in hist:
         if t is None:
-            r.update(build(v))
+            if kw:
+                r.update(value=build(v))
+            else:
+                r.update(build(v))
+        elif kw:
+            r.update(value=build(v), total=build(t))
         else:
             r.update(build(v), build(t))
     return r
 
 
 def build_sim(ss):
-    """ss = {'params': pspec, 'results': [[rspec, ...] per name], 'runned_reps': vspec, 'current_rep': int}"""
+    """ss = {'params': pspec, 'results': [[rspec, ...] per name], 'runned_reps': vspec, 'current_rep': int,
+             'current_rep_dtype': optional numpy integer type of current_rep (R9), 'derive': optional R13 derivation,
+             'add_new': use add_new_result for single-update non-accumulating results (R8)}"""
     SR = _impl()[2]
     s = SR()
     s.set_parameters(build_params(ss['params']))
     for group in ss['results']:
-        for rs in group:
-            s.append_result(build_result(rs))
+        for i, rs in enumerate(group):
+            if (ss.get('add_new') and i == 0 and not rs['acc'] and len(rs['history']) == 1
+                    and rs.get('form', 'ctor-kw').startswith('c')):
+                v, t = rs['history'][0]
+                if rs['type'] == 3:
+                    s.add_new_result(rs['name'], 3, build(v), rs['choice_num'])
+                elif t is None:
+                    s.add_new_result(rs['name'], rs['type'], build(v))
+                else:
+                    s.add_new_result(name=rs['name'], update_type=rs['type'], value=build(v), total=build(t))
+            else:
+                s.append_result(build_result(rs))
     s.runned_reps = build(ss['runned_reps'])
     s.current_rep = ss['current_rep']
+    if ss.get('current_rep_dtype'):
+        s.current_rep = np.dtype(ss['current_rep_dtype']).type(ss['current_rep'])
     if ss.get('prev_filename') is not None:
         s.original_filename = ss['prev_filename']      # the object was saved before, under another template
+    if ss.get('derive') == 'deepcopy':                 # R13: objects derived from other objects
+        s = copy.deepcopy(s)
+    elif ss.get('derive') == 'pickle':
+        s = pickle.loads(pickle.dumps(s, protocol=2))
+    elif ss.get('derive') == 'json':
+        s = SR.from_json(s.to_json())
     return s
 
 
@@ -1035,7 +1113,7 @@ def _sim_failure(ss):
 
 def sim_class(ss):
     if ss['current_rep'] != -1:
-        only = dict(ss, current_rep=-1)
+        only = dict(ss, current_rep=-1, current_rep_dtype=None)
         try:
             if _sim_failure(only) is None:
                 return 'sim:current_rep'
@@ -1257,6 +1335,43 @@ def _robust(ss, base, P, R, SR):
         fn()
         if sim_state(s) != before:
             return 'R3:%s-modifies-object' % what, 'state changed by %s()' % what
+    # ---------------- R11: queries, comparisons, representations and copies do not modify the object
+    def q_results():
+        for n in s.get_result_names():
+            s.get_result_values_list(n)
+            for r in s[n]:
+                r.get_result(), repr(r), r.type_name, r.type_code, r.accumulate_values_bool
+                if r.num_updates > 0 and r.type_code != 2:
+                    r.get_result_mean(), r.get_result_var()
+                    try:
+                        r.get_confidence_interval()
+                    except Exception:
+                        pass
+
+    def q_params():
+        pr = s.params
+        pr.get_num_unpacked_variations(), pr.fixed_parameters, pr.unpacked_parameters, pr.unpack_index
+        len(pr), repr(pr), list(iter(pr))
+        try:
+            lst = pr.get_unpacked_params_list()
+            lst[0].get_num_unpacked_variations()
+        except Exception:
+            pass
+    for what, fn in (('result-queries', q_results), ('params-queries', q_params),
+                     ('eq', lambda: (s == s, s != build_sim(ss), s == 3, s.params == s.params, s.params != 3)),
+                     ('repr-len', lambda: (repr(s), len(s), str(s))),
+                     ('copy', lambda: (copy.copy(s), copy.deepcopy(s), copy.deepcopy(s.params))),
+                     ('from_json-of-own-text', lambda: SR.from_json(s.to_json()))):
+        try:
+            fn()
+        except Exception as e:
+            if eq_usable(s):
+                return 'R11:%s-raises' % what, '%s: %s' % (type(e).__name__, str(e)[:100])
+        if sim_state(s) != before:
+            return 'R11:%s-modifies-object' % what, 'state changed by the %s calls' % what
+    later = SR.from_json(s.to_json())
+    if sim_state(later) != sim_state(SR.from_json(build_sim(ss).to_json())):
+        return 'R11:queries-change-later-save', 'after the queries the object is saved differently from a fresh one'
     template = base + '_' + ss['template'] + '_{missing}'
     tpl_copy = ''.join(template)
     for ext in ('.json', '.pickle'):
@@ -1386,6 +1501,134 @@ def sim_state_tolerant(s):
         s._params.parameters['cplx'] = keep
 
 
+def o_forms(case):
+    """R8: argument forms documented as equivalent give the same object and the same saved form"""
+    R, SR = _impl()[1], _impl()[2]
+    if 'results' in case:                       # SimulationResults: add_new_result vs append_result(Result(...))
+        ss = case
+        if unbuildable(ss) is not None:
+            return None
+        a, b2 = build_sim(dict(ss, add_new=True)), build_sim(dict(ss, add_new=False))
+        if sim_state(a) != sim_state(b2) or text_tree(a.to_json()) != text_tree(b2.to_json()):
+            return 'R8:add_new_result-differs', 'add_new_result(...) and append_result(Result(...)) give different objects'
+        name = os.path.join(_tmpdir(), 'forms_%d_' % os.getpid() + ss.get('template', 'x'))
+        out = []
+        for ext in ('.json', '.pickle'):
+            f1 = a.save_to_file(name + ext)
+            f2 = b2.save_to_file(filename=name + ext)
+            q1, q2 = SR.load_from_file(f1), SR.load_from_file(filename=f2)
+            for f in {f1, f2}:
+                try:
+                    os.remove(f)
+                except OSError:
+                    pass
+            if f1 != f2 or sim_state(q1) != sim_state(q2):
+                return 'R8:save-load-keyword-form:' + ext, 'positional and keyword calls differ'
+            out.append(q1)
+        if sim_state(SR.from_json(data=a.to_json())) != sim_state(SR.from_json(a.to_json())):
+            return 'R8:from_json-keyword-form', 'from_json(data=...) differs'
+        if a.get_filename_with_replaced_params(filename=name) != a.get_filename_with_replaced_params(name):
+            return 'R8:get_filename-keyword-form', 'keyword call differs'
+        misc = _impl()[4]
+        d = dict(a.params.parameters)
+        try:
+            n1, n2 = misc.replace_dict_values(name, d, True), misc.replace_dict_values(name=name, dictionary=d, filename_mode=True)
+        except KeyError:
+            n1 = n2 = name
+        if n1 != n2 or n1 != a.get_filename_with_replaced_params(name):
+            return 'R8:replace_dict_values-form', '%r / %r' % (n1, n2)
+        return None
+    rs = case
+    try:
+        ref = build_result(rs, 'ctor-kw')
+    except Exception:
+        return None if rs['type'] != 3 else ('R8:result-form:ctor-kw', 'valid CHOICE history raises')
+    st, tx = result_state(ref), text_tree(ref.to_json())
+    for form in RESULT_FORMS[1:]:
+        try:
+            r = build_result(rs, form)
+        except Exception as e:
+            return 'R8:result-form:' + form, 'raises %s: %s' % (type(e).__name__, str(e)[:100])
+        if result_state(r) != st or text_tree(r.to_json()) != tx:
+            return 'R8:result-form:' + form, 'object built as %s differs from the keyword constructor form' % form
+        if result_state(R.from_json(r.to_json())) != result_state(R.from_json(ref.to_json())):
+            return 'R8:result-form:' + form, 'loaded object differs'
+    return None
+
+
+def permute_ps(ps):
+    def rev(v):
+        if v[0] == 'set':
+            return ['set', list(reversed(v[1]))]
+        if v[0] == 'list':
+            return ['list', [rev(x) for x in v[1]]]
+        return v
+    un = set(ps.get('unpack', []))          # the iteration order of an unpacked set decides which child is which
+    return dict(ps, params=[[n, (v if n in un else rev(v))] for n, v in reversed(ps['params'])],
+                unpack=list(reversed(ps.get('unpack', []))),
+                post_ops=[])
+
+
+def o_order(case):
+    """R12: the order in which parameters, unpack marks, results and set elements
+    were added is not part of the value"""
+    SR = _impl()[2]
+    ss = dict(case, derive=None)
+    ss['params'] = dict(ss['params'], post_ops=[])
+    tw = dict(ss, params=permute_ps(ss['params']), results=list(reversed(ss['results'])))
+    if unbuildable(ss) is not None or unbuildable(tw) is not None:
+        return None
+    a, b2 = build_sim(ss), build_sim(tw)
+    if sim_state(a) != sim_state(b2):
+        return None      # (a set unpacked further down the chain: its iteration order decides which child this is)
+    for what, la, lb in (('json', SR.from_json(a.to_json()), SR.from_json(b2.to_json())),
+                         ('dict', SR.from_dict(a.to_dict()), SR.from_dict(b2.to_dict())),
+                         ('pickle', pickle.loads(pickle.dumps(a, protocol=2)), pickle.loads(pickle.dumps(b2, protocol=2)))):
+        if sim_state(la) != sim_state(lb):
+            return 'R12:order-dependent:' + what, 'the loaded object depends on the insertion order'
+        if eq_usable(a) and not (la == lb and lb == la and la == b2):
+            return 'R12:order-dependent:' + what + ':==', 'objects with the same content in another order compare unequal'
+    if text_tree(a.to_json()) != text_tree(b2.to_json()):
+        return 'R12:order-dependent:json-text', 'JSON differs beyond the order of keys / set elements'
+    tpl = ss.get('template') or 'x'
+    if a.get_filename_with_replaced_params(tpl) != b2.get_filename_with_replaced_params(tpl):
+        return 'R12:order-dependent:filename', 'file name depends on the insertion order'
+    return None
+
+
+def o_combine(case):
+    """R13: the union built by combine_simulation_results (an object derived from
+    two others) survives every route, and its sources are not modified"""
+    P, R, SR = _impl()[0], _impl()[1], _impl()[2]
+    from pyphysim.simulations.results import combine_simulation_results
+    srcs = []
+    for vals in (case['a'], case['b']):
+        p = P.create({'snr': np.array(vals, dtype=case['dtype']), 'M': case['M']})
+        p.set_unpack_parameter('snr')
+        s = SR()
+        s.set_parameters(p)
+        for i, v in enumerate(vals):
+            s.append_result(R.create('ber', 1, int(v) + i, 100 + i))
+            s.append_result(R.create('n', 0, i + 1))
+        srcs.append(s)
+    before = [sim_state(x) for x in srcs]
+    u = combine_simulation_results(srcs[0], srcs[1])
+    st = sim_state(u)
+    for what, q in (('json', SR.from_json(u.to_json())), ('dict', SR.from_dict(u.to_dict())),
+                    ('pickle', pickle.loads(pickle.dumps(u, protocol=2)))):
+        d = sim_same(u, q)
+        if d:
+            return 'R13:combined-object:' + what, d
+        if not (u == q):
+            return 'R13:combined-object:' + what, 'loaded union != union'
+        mutate_sim(q)
+        if sim_state(u) != st:
+            return 'R13:combined-object:' + what + ':aliased', 'loaded union shares state with the union'
+    if [sim_state(x) for x in srcs] != before:
+        return 'R13:combined-object:sources-modified', 'saving / loading the union changed a source object'
+    return None
+
+
 def o_tuple(case):
     """a tuple-valued parameter (JSON has no tuples)"""
     P = _impl()[0]
@@ -1423,6 +1666,9 @@ ORACLES = {
     'SimulationResults.filename.set': o_filename_set,
     'SimulationResults.robustness': o_robust,
     'SimulationParameters.roundtrip.tuple': o_tuple,
+    'equivalent-argument-forms': o_forms,
+    'SimulationResults.insertion-order': o_order,
+    'SimulationResults.combined': o_combine,
     'json.rejects-complex': o_complex_rejected,
 }
 
@@ -1689,7 +1935,8 @@ def gen_params(rng, allow_child=True):
         else:
             v = gen_value(rng, 2)
         params.append([n, v])
-    ps = {'params': params, 'unpack': unpack, 'child': None, 'via_add': rng.chance(0.6)}
+    ps = {'params': params, 'unpack': unpack, 'child': None, 'via_add': rng.chance(0.6), 'mark_form': rng.below(3),
+          'derive': rng.choice([None, None, None, 'deepcopy', 'pickle'])}
     if allow_child and unpack and rng.chance(0.5):
         # a child exists only if every unpacked parameter is non-empty
         if all(len_of(dict((n, v) for n, v in params)[n]) > 0 for n in unpack):
@@ -1699,6 +1946,8 @@ def gen_params(rng, allow_child=True):
                 ps['grandchild'] = [rng.choice(cands), rng.randint(0, 20)]
     if ps['child'] is not None and rng.chance(0.65):
         add_post_ops(rng, ps)
+    if ps['child'] is not None:
+        ps['derive_child'] = rng.choice([None, None, 'deepcopy', 'pickle'])
     return ps
 
 
@@ -1777,19 +2026,22 @@ def n_choices_bool(n, i):
 def gen_result(rng, name=None, rtype=None):
     t = rng.below(4) if rtype is None else rtype
     rs = {'name': name if name is not None else gen_str(rng), 'type': t, 'acc': rng.chance(0.4),
-          'choice_num': None, 'history': []}
+          'choice_num': None, 'history': [], 'form': rng.choice(RESULT_FORMS)}
     k = rng.choice([0, 1, 1, 2, 3, 5, 8])
     if t == 3:
-        rs['choice_num'] = rng.randint(1, 5)
+        rs['choice_num'] = rng.randint(1, 5) if rng.chance(0.85) else rng.choice([257, 258, 300])
         for _ in range(k):
             i = rng.randint(-rs['choice_num'], rs['choice_num'] - 1) if rng.chance(0.2) else rng.randint(0, rs['choice_num'] - 1)
             c = rng.below(4)
             if n_choices_bool(rs['choice_num'], i) and rng.chance(0.1):
                 spec = rng.choice([['npbool', bool(i)], ['bool', bool(i)]])
             elif rng.chance(0.08):
-                spec = ['array', rng.choice(['int64', 'int16', 'uint8'] if i >= 0 else ['int64', 'int16']), [], [i]]   # 0-d array
+                spec = ['array', rng.choice(['int64', 'int16', 'uint8'] if 0 <= i < 256 else ['int64', 'int16']), [], [i]]   # 0-d array
             else:
-                spec = ['int', i] if c <= 1 else ['npint', rng.choice(['int8', 'int16', 'int32', 'int64']), i]
+                dts = ['int16', 'int32', 'int64', 'intp'] + (['int8'] if -128 <= i < 128 else [])
+                if i >= 0:
+                    dts += ['uint16', 'uint32', 'uint64'] + (['uint8'] if i < 256 else [])
+                spec = ['int', i] if c <= 1 else ['npint', rng.choice(dts), i]
             rs['history'].append([spec, None])
     elif t == 2:
         for _ in range(k):
@@ -1840,7 +2092,13 @@ def gen_sim(rng, with_template=True):
                      ['list', [['int', rng.choice([0, rng.randint(0, 1000)])] for _ in range(rng.randint(0, 4))]]])
     ss = {'params': ps, 'results': groups, 'runned_reps': rr,
           'current_rep': rng.choice([-1, -1, 0, 0, 3, rng.randint(0, 10 ** 6)]), 'template': None,
-          'prev_filename': rng.choice([None, None, '', 'old_{snr}.pickle', 'previous.json'])}
+          'prev_filename': rng.choice([None, None, '', 'old_{snr}.pickle', 'previous.json']),
+          'current_rep_dtype': rng.choice([None, None, None, 'int8', 'int64', 'uint16', 'intp']),
+          'add_new': rng.chance(0.5), 'derive': rng.choice([None, None, None, 'deepcopy', 'pickle', 'json'])}
+    if ss['current_rep_dtype'] in ('int8',):
+        ss['current_rep'] = ss['current_rep'] % 100
+    if ss['current_rep_dtype'] in ('uint16',):
+        ss['current_rep'] = abs(ss['current_rep']) % 60000
     if with_template:
         # final parameter dictionary of the object that is saved
         fields = []
@@ -2405,6 +2663,76 @@ def robustness_pass(ctx, b):
     b.flush()
 
 
+def heterogeneous_values():
+    """R10: collections whose elements differ in dtype, shape or Python type"""
+    i16 = ['array', 'int16', [2], [1, 2]]
+    f32 = ['array', 'float32', [2], [fhex(0.5), fhex(1.5)]]
+    f64_2d = ['array', 'float64', [2, 2], [fhex(x) for x in (1, 2, 3, 4)], 'F']
+    u8_0d = ['array', 'uint8', [], [7]]
+    bl = ['array', 'bool', [3], [True, False, True]]
+    lst = ['list', [['int', 1], ['float', fhex(2.5)]]]
+    return [
+        ['list', [i16, f32]], ['list', [f32, i16]], ['list', [i16, f64_2d, u8_0d, bl]], ['list', [lst, i16]],
+        ['list', [i16, lst, ['set', [['int', 1], ['str', 'a']]], ['str', 'x'], ['none']]],
+        ['list', [['int', 1], ['float', fhex(1.0)], ['bool', True], ['npint', 'int8', 1], ['npfloat', 'float16', fhex(1.0)]]],
+        ['list', [['float', fhex(0.5)], ['int', 2 ** 70], ['npint', 'uint64', 2 ** 64 - 1]]],
+        ['list', [['list', [i16]], ['list', [['list', [f32, ['int', 3]]]]]]],
+        ['set', [['int', 2], ['float', fhex(0.5)], ['str', '2'], ['none'], ['npint', 'int16', 3], ['bool', False]]],
+        ['list', [['array', 'float64', [0], []], ['array', 'int64', [0, 2], []], ['list', []]]],
+    ]
+
+
+def count_cases():
+    """R14: 257 / 258 / 300 parameters, results, choices, and 2^16+1 elements"""
+    n = 2 ** 16 + 1
+    many_params = {'params': [['p%03d' % i, ['int', i]] for i in range(257)] +
+                             [['u', ['list', [['int', k] for k in range(258)]]]],
+                   'unpack': ['u'], 'child': 257, 'via_add': False, 'post_ops': [[0, 'set', 'p256', ['int', -1]]]}
+    many_results = [[{'name': 'r%03d' % i, 'type': i % 3, 'acc': False, 'choice_num': None,
+                      'history': [[['int', i], (['int', 300] if i % 3 == 1 else None)]]}] for i in range(258)]
+    big_choice = {'name': 'c', 'type': 3, 'acc': True, 'choice_num': 300,
+                  'history': [[['int', (i * 257) % 300], None] for i in range(600)] + [[['npint', 'uint16', 299], None]]}
+    long_choice = {'name': 'c', 'type': 3, 'acc': False, 'choice_num': 2, 'history': [[['int', 1], None]] * n}
+    long_list = ['list', [['int', i % 300] for i in range(n)]]
+    long_array = ['array', 'int32', [n], [i % 1000 for i in range(n)]]
+    sim = {'params': many_params, 'results': many_results, 'runned_reps': ['list', [['int', i] for i in range(300)]],
+           'current_rep': 257, 'template': 'many_{p000}_{p256}', 'prev_filename': None}
+    return {'values': [long_list, long_array], 'params': [many_params], 'results': [big_choice, long_choice],
+            'sims': [sim]}
+
+
+def r8_14_pass(ctx, b, thorough):
+    """deterministic cases of the classes R8-R14 through the correspondence and the oracles"""
+    for spec in heterogeneous_values():
+        corr_value(ctx, b, spec)
+        run_value_oracles(ctx, spec)
+        ps = {'params': [['h', spec], ['k', ['int', 1]]], 'unpack': (['h'] if spec[0] == 'list' else []),
+              'child': (1 if spec[0] == 'list' else None), 'via_add': True}
+        corr_params(ctx, b, ps)
+        run_params_oracles(ctx, ps)
+        rs = {'name': 'm', 'type': 2, 'acc': True, 'choice_num': None, 'history': [[spec, None], [['int', 0], None]]}
+        corr_result(ctx, b, rs)
+        run_oracle(ctx, 'Result.roundtrip', rs)
+        ctx.branch('R10:heterogeneous-collection')
+    b.flush()
+    cc = count_cases()
+    for spec in cc['values']:
+        corr_value(ctx, b, spec)
+        run_oracle(ctx, 'json.roundtrip', {'v': spec}, key=('count', spec[0]))
+    for ps in cc['params']:
+        corr_params(ctx, b, ps)
+        run_oracle(ctx, 'SimulationParameters.roundtrip', ps, key='count-params')
+    for rs in cc['results'][:(2 if thorough else 1)] + ([] if thorough else cc['results'][1:]):
+        corr_result(ctx, b, rs)
+        run_oracle(ctx, 'Result.roundtrip', rs, key=('count-result', len(rs['history'])))
+    for ss in cc['sims']:
+        corr_sim(ctx, b, ss)
+        run_oracle(ctx, 'SimulationResults.roundtrip', ss, key='count-sim')
+        run_oracle(ctx, 'SimulationResults.insertion-order', ss, key='count-sim-order')
+    ctx.branch('R14:counts-257-258-300-65537')
+    b.flush()
+
+
 def sizes(ctx):
     if ctx.tier == 'quick':
         return dict(values=5000, params=2000, results=2500, sims=600, fnames=1200, orc=1200)
@@ -2480,6 +2808,7 @@ def correspondence(ctx):
         corr_filename(ctx, b, rng)
     b.flush()
     robustness_pass(ctx, b)
+    r8_14_pass(ctx, b, ctx.tier == 'thorough')
     if ctx.tier == 'thorough':
         small_scope(ctx, b)
 
@@ -2613,6 +2942,23 @@ def oracle_pass(ctx, scale=1.0):
             continue
         run_oracle(ctx, 'SimulationResults.robustness', ss)
         ctx.branch('R3R4R7:robustness-scenarios')
+    # R8 / R12 / R13 scenarios
+    for rs in corpus_results():
+        run_oracle(ctx, 'equivalent-argument-forms', rs)
+    for _ in range(max(60, k // 4)):
+        run_oracle(ctx, 'equivalent-argument-forms', gen_result(rng))
+        ctx.branch('R8:argument-forms')
+    for _ in range(max(25, k // 12)):
+        ss = gen_guarded(ctx, 'equivalent-argument-forms', gen_sim, rng)
+        if ss is None or 'npfloat:longdouble' in _params_features(ss['params']):
+            continue
+        run_oracle(ctx, 'equivalent-argument-forms', ss)
+        ctx.branch('R8:argument-forms-sim')
+        run_oracle(ctx, 'SimulationResults.insertion-order', ss)
+        ctx.branch('R12:insertion-order')
+    for dt in ('int64', 'float64', 'int16', 'float32'):
+        run_oracle(ctx, 'SimulationResults.combined', {'a': [1, 2, 3], 'b': [2, 4, 6, 300], 'dtype': dt, 'M': 4})
+        ctx.branch('R13:combined-object')
     run_oracle(ctx, 'SimulationParameters.roundtrip.tuple', {'items': [['int', 1], ['int', 2]]})
     for kind in ('scalar', 'npscalar', 'array'):
         run_oracle(ctx, 'json.rejects-complex', {'kind': kind})
@@ -2627,7 +2973,9 @@ def check(ctx):
                 'files with parameter templates. non-trivial = distinct spec that is a container / numpy scalar / '
                 'has >=1 parameter / >=1 update')
     core.prove(ctx, MODULE, generated=[], drivers=[DRIVER], scratch=ctx.scratch)
-    ctx.required_branches = ['params:child-own-values-differ-from-original', 'params:post-op:set:child',
+    ctx.required_branches = ['R8:argument-forms', 'R8:argument-forms-sim', 'R10:heterogeneous-collection',
+                             'R12:insertion-order', 'R13:combined-object', 'R14:counts-257-258-300-65537',
+                             'params:child-own-values-differ-from-original', 'params:post-op:set:child',
                              'params:post-op:set:original', 'params:post-op:remove:child',
                              'params:post-op:remove:original', 'params:post-op:mark:child',
                              'params:post-op:rejected', 'R5:boundary', 'R5:boundary-sim', 'R6:scale', 'R3R4R7:robustness-scenarios',
